@@ -22,7 +22,7 @@ type C18Case struct {
 var _ = Register("C18", func() interface{} { return new(C18Case) }, func(c interface{}) string { return c18Oracle(c.(*C18Case)) })
 
 var c18Decl = &GenCfg{Depth: 3, Fanout: 3, MaxOpts: 4, MaxGroups: 2, NestGroups: 1, Kinds: []Kind{KComp, KCompSlice, KCompPtr, KString, KInt, KBool, KBoolSlice, KStringSlice, KFuncS},
-	Pos: true, PosPct: 25, Ns: true, Req: 0, OptArg: true, Aliases: true, SubOpt: 40, NonASCII: true, CmdPct: 85, Desc: true, InCode: 10, ViaAdd: 5}
+	Pos: true, PosPct: 25, Ns: true, Req: 0, OptArg: true, Aliases: true, SubOpt: 40, NonASCII: true, CmdPct: 85, Desc: true, InCode: 10, ViaAdd: 5, StaticTwins: true}
 
 var c18Argv = &ArgvCfg{MaxItems: 2, WOpt: 55, WCluster: 12, WCmd: 8, WPlain: 8, WTerm: 2, WUnknown: 0, WJunk: 0, WRepeat: 10, BadVal: 0, Quote: 3}
 
